@@ -9,8 +9,8 @@ for pid in "$@"; do
   wt=/tmp/wtrf_${pid}_$$
   git -C /repo worktree remove --force $wt >/dev/null 2>&1
   git -C /repo worktree add --detach $wt HEAD -q >/dev/null 2>&1
-  if ! git -C $wt apply /verif/refactors/$pid/patch.diff 2>/dev/null; then
-    if git -C $wt apply -3 /verif/refactors/$pid/patch.diff >/dev/null 2>&1; then echo "$pid: (patch applied with 3-way merge)"; else echo "$pid: PATCH NO LONGER APPLIES"; git -C /repo worktree remove --force $wt; continue; fi
+  if ! git -C $wt apply /verif/${REFDIR:-refactors}/$pid/patch.diff 2>/dev/null; then
+    if git -C $wt apply -3 /verif/${REFDIR:-refactors}/$pid/patch.diff >/dev/null 2>&1; then echo "$pid: (patch applied with 3-way merge)"; else echo "$pid: PATCH NO LONGER APPLIES"; git -C /repo worktree remove --force $wt; continue; fi
   fi
   if ! (cd $wt && go build ./... && go build -tags verif ./... 2>/dev/null); then echo "$pid: does not build"; git -C /repo worktree remove --force $wt; continue; fi
   v=$(cd $pv && VERIF_REPO=$wt ./check $pid 2>$pv/reref_$pid.err | grep -E "^(OK|VIOLATION|ERROR)" | cut -c1-150)
